@@ -1499,7 +1499,10 @@ class HistGen:
     def g_misc(self):
         rng = self.rng
         k = rng.randrange(4)
-        if k == 0:
+        if self.stream == "lrlink" and rng.random() < 0.5:
+            # all the link records are released at once while the linked trees live on (second half of F114)
+            self.emit("ctx:unset_leafref_linking", "culr")
+        elif k == 0:
             self.emit("err_clean", "ec")
         elif k == 1:
             self.emit("dict:insert_zc", O("zc", rng.choice(("a", "description", "x" * 50, "", "lfa", "žž")), rng.randrange(1, 5)))
@@ -1715,6 +1718,14 @@ def seed_f114():
     doc = ('{"lfb:sys":{"name":"on","if":[{"name":"a","idx":1}],"ref":"a","lfc:rt":[{"dst":"on","pfx":32,"via":"a"},{"dst":"x","pfx":1,"via":"a"},'
            '{"dst":"y","pfx":2,"via":"a"},{"dst":"z","pfx":3,"via":"a"},{"dst":"w","pfx":4,"via":"a"}]},"lfc:cfg":{"mode":"a"}}')
     return 1, 0x400 | 4, [O("px", 1, 1, 0, V_PRESENT, doc)]
+
+
+def seed_f114b(n=30):
+    """LY_CTX_LEAFREF_LINKING switched off while linked data exist: lyht_free() walks the table its value callback removes records from
+    (whether a removal shrinks the table at a bad moment depends on the record count and the node addresses: several sizes)"""
+    doc = ('{"lfb:sys":{"name":"on","if":[{"name":"a","idx":1}],"ref":"a","lfc:rt":[' +
+           ",".join('{"dst":"d%d","pfx":%d,"via":"a"}' % (i, i % 33) for i in range(n)) + ']},"lfc:cfg":{"mode":"a"}}')
+    return 1, 0x400 | 4, [O("px", 1, 1, 0, V_PRESENT, doc), "culr"]
 
 
 def seed_f115():
@@ -2185,7 +2196,7 @@ def run_life(cx, workers=None):
             "merge/diff), validated subtree parses (F119, 2%), late-failing loads of a module whose submodule derives identities from a surviving module under a prefix of its own (4%); non-trivial = distinct history whose reply reports at least one successful and one failing library call")
 
     hist = []       # (set, ctxopts, ops, kinds, stream)
-    for s in (seed_f19(), seed_f19_key(), seed_f21(), seed_f111(), seed_f112(), seed_f113(), seed_f114(), seed_f115(), seed_f116(), seed_f119(), seed_f440(), seed_f441(), seed_f121(), seed_f123(), seed_f123b(), seed_f124(), seed_f125(), seed_f126(), seed_f127(), seed_f128(0), seed_f128(1)):
+    for s in (seed_f19(), seed_f19_key(), seed_f21(), seed_f111(), seed_f112(), seed_f113(), seed_f114(), seed_f114b(12), seed_f114b(26), seed_f114b(30), seed_f114b(40), seed_f115(), seed_f116(), seed_f119(), seed_f440(), seed_f441(), seed_f121(), seed_f123(), seed_f123b(), seed_f124(), seed_f125(), seed_f126(), seed_f127(), seed_f128(0), seed_f128(1)):
         hist.append((s[0], s[1], s[2], ["seed"] * len(s[2]), "seed"))
     hist += exhaustive_small(gen)
     n = int(os.environ.get("VERIF_LIFE_N", "0")) or cx.n(2200, 30000)
